@@ -6,6 +6,7 @@ runs the batches in a few worker processes (each batch is an independent closed-
 construction) and merges what they recorded into the report in a fixed order."""
 import multiprocessing as mp
 import os
+import time
 import traceback
 
 from ..gcheck import GFamily, run_batches
@@ -87,9 +88,11 @@ def _worker(args):
     py312_tracer.install()
     rec = _Recorder(prop, tier, seed)
     f, invs = family(mp_)
+    t0 = time.time()
     try:
         stats = run_batches(f, rec, [batch], invs, PROPS if live else [], spec_budget=300000, total_budget=1200000,
                             followup=True, log=lambda *a: None, tlc_timeout=3000)
+        rec.add(batch_wall_s=[[idx, round(time.time() - t0, 1)]])      # evidence only
         return idx, rec.calls, stats, None
     except MachineryError as ex:
         return idx, rec.calls, [], "machinery: %s" % ex
